@@ -4,7 +4,7 @@ P: contracts tagged C04 (serialization nodes, omission lemma) when they exist.
 B: run-time contract of apischema.serialize / serialization_method against the reference
 serialization of drivers/model_ser.py (written from the statement) over the C01 type space plus
 the serialization-only features, generated values and the option sets of the quantifier."""
-from drivers import ser_e2e
+from drivers import ser_e2e, ser_late
 from vf.pcheck import run_p, targets_for
 
 from .common import ASSUME_CHILDREN, TRUSTED, generic_replay
@@ -22,6 +22,7 @@ def run(report, tier, seed):
     if run_p(report, PROP, tier):
         report.assumptions.append(ASSUME_CHILDREN)
     ser_e2e.run(report, tier, seed)
+    ser_late.run(report, tier, seed, "image")
 
 
 replay = generic_replay
